@@ -2,6 +2,7 @@
 //! `check <property> [--tier quick|thorough] [--replay <file>]`
 mod c10;
 mod c11;
+mod c13;
 mod c19;
 mod common;
 
@@ -19,6 +20,7 @@ fn lookup(id: &str) -> Option<(RunFn, CheckFn)> {
     Some(match id {
         "C10" => (c10::run, c10::check_record),
         "C11" => (c11::run, c11::check_record),
+        "C13" => (c13::run, c13::check_record),
         "C19" => (c19::run, c19::check_record),
         _ => return None,
     })
@@ -30,6 +32,35 @@ fn main() {
         usage();
     }
     let id = args[0].clone();
+    if id == "samples13" {
+        c13::debug_samples();
+        return;
+    }
+    if id == "dump" {
+        // check dump <file> [dx|vk|vkba|msl] [all|nopipe|<name>] : debugging aid, prints compile() output
+        install_panic_hook();
+        let src = std::fs::read_to_string(&args[1]).expect("read");
+        let tgt = Tgt::from_name(args.get(2).map(|s| s.as_str()).unwrap_or("dx"));
+        let mode = match args.get(3).map(|s| s.as_str()) {
+            None | Some("nopipe") => Mode::NoPipeline,
+            Some("all") => Mode::All,
+            Some(n) => Mode::Named(n.to_string()),
+        };
+        let files = vec![("main.rssl".to_string(), src)];
+        let r = compile(&CompileReq { files: &files, entry: "main.rssl", defines: &[], tgt, mode, validate_layout: false });
+        match r {
+            Err(p) => println!("PANIC: {}", p),
+            Ok(Err(e)) => println!("ERROR:\n{}", e),
+            Ok(Ok(ps)) => {
+                for p in ps {
+                    println!("{}", pipeline_text(&p));
+                    println!("// stages: {:?}", p.stages.iter().map(|s| (format!("{:?}", s.stage), s.entry_point.clone(), s.thread_group_size)).collect::<Vec<_>>());
+                    println!("// metadata: {:?}", p.metadata);
+                }
+            }
+        }
+        return;
+    }
     let mut tier = match std::env::var("VERIF_TIER").ok().as_deref() {
         Some("thorough") => Tier::Thorough,
         _ => Tier::Quick,
